@@ -174,6 +174,9 @@ def catalogue(thorough: bool) -> t.List[Stream]:
     out.append(Stream("server", [], [L.ExtendedRequest(1, [], "1.2", odd), L.ExtendedRequest(2, [], "1.2", odd[7:])], 0, "foreign-framing-in-values"))
     out.append(Stream("client", ["search"], [L.SearchResultEntry(1, [], "cn=x", [L.PartialAttribute("objectGUID", [odd, odd[7:12], odd[12:]])]), _with_id(don[0], 1)], 0, "foreign-framing-in-values"))
     out.append(Stream("server", [], [L.BindRequest(1, [], 2, "cn=J\u00fcrgen", L.SimpleCredential("p\u00e4ss")), L.SearchRequest(2, [], "ou=Caf\u00e9,dc=x", L.SearchScope.SUBTREE, L.DereferencingPolicy.NEVER, 0, 0, False, L.FilterEquality("cn", "M\u00fcller".encode()), ["cn"])], 0, "v2-bind-then-non-ascii"))
+    # more messages in one stream than a per-call limit would plausibly allow (1000, 1024): however they are delivered, all arrive
+    out.append(Stream("client", ["search"], [L.SearchResultEntry(1, [], "cn=%d" % i, []) for i in range(1100)] + [_with_id(don[0], 1)], 0, "1100-entries"))
+    out.append(Stream("server", [], [L.ExtendedRequest(i + 1, [], "1.2", None) for i in range(1100)], 0, "1100-requests"))
     # messages above the sizes at which an implementation might start to treat pending data differently (256 KiB, 1 MiB, 16 MiB)
     out.append(Stream("client", ["search"], [L.SearchResultEntry(1, [], "cn=x", [L.PartialAttribute("jpegPhoto", [b"\xfe" * 300_000])]), _with_id(don[0], 1)], 0, "300KB-value"))
     out.append(Stream("server", [], [L.ExtendedRequest(1, [], "1.2", b"w" * 1_200_000), _with_id(er[0], 2)], 1, "1.2MB-value-off-boundary"))
@@ -234,6 +237,11 @@ def column_set(n: int, ends: t.List[int], sparse: bool) -> t.List[int]:
     header and PDU boundary (where every branch of the reassembly code is decided)."""
     if not sparse:
         return list(range(n + 1))
+    if len(ends) > 300:  # a thousand and more small messages: the first and last few boundaries and the middle
+        cols = set(range(0, 7)) | {n - 2, n - 1, n, n // 2}
+        for e in ends[:2] + ends[-3:] + [ends[len(ends) // 2]]:
+            cols |= {c for c in (e - 1, e, e + 1) if 0 <= c <= n}
+        return sorted(cols)
     if n > 2_000_000:  # multi-megabyte streams: the header, the ends and every PDU boundary only
         cols = set(range(0, 7)) | {n - 2, n - 1, n, n // 2}
         for e in ends:
